@@ -192,6 +192,16 @@ def run(rep, wd, tier, seed):
     for c, k in other.items():
         rep.notes.append('clause %s failed on %d traces; judged by another property' % (c, k))
     rep.sample({'trace': outs[0][0]['_desc'], 'result': outs[0][0]['_d']})
+    tool_config(rep, wd, tier, seed)
+
+
+def tool_config(rep, wd, tier, seed):
+    """masking is switched on in a configuration FILE: which file a tool uses (--config-file, the CARDUTIL_CONFIG folder,
+    the package) is specified in spec/ToolConfig.tla; TLC enumerates the 16 environments, each is replayed on get_config"""
+    from . import x01
+    was = rep.exhaustive
+    x01.run(rep, wd, tier, seed)
+    rep.exhaustive = was
 
 
 def replay(rep, wd, payload):
